@@ -31,6 +31,11 @@ class BuckGophermapHandler(BaseHandler):
                 and stat.S_ISREG(self.statresult[stat.ST_MODE])
                 and self.getselector().endswith(".gophermap")
             ):
+                # A *.gophermap file is served as a menu: describe it as one
+                # (the type and MIME type of a plain file would be advertised
+                # otherwise, e.g. "Content-Type: text/plain" for an HTML menu).
+                self.entry.type = "1"
+                self.entry.mimetype = "application/gopher-menu"
                 self.entry.populatefromvfs(self.vfs, self.getselector())
             else:
                 self.entry.populatefromfs(
